@@ -122,35 +122,35 @@ impl MReg {
     // Clone::clone_from between two registers of the same capacity
     fn clone_from_reg(&mut self, src: &MReg) {
         match (self, src) {
-            (MReg::C0(d), MReg::C0(s)) => counted(|| d.v.clone_from(&s.v)),
-            (MReg::C1(d), MReg::C1(s)) => counted(|| d.v.clone_from(&s.v)),
-            (MReg::C2(d), MReg::C2(s)) => counted(|| d.v.clone_from(&s.v)),
-            (MReg::C3(d), MReg::C3(s)) => counted(|| d.v.clone_from(&s.v)),
-            (MReg::C4(d), MReg::C4(s)) => counted(|| d.v.clone_from(&s.v)),
-            (MReg::C8(d), MReg::C8(s)) => counted(|| d.v.clone_from(&s.v)),
+            (MReg::C0(d), MReg::C0(s)) => windowed(&s.v, || counted(|| d.v.clone_from(&s.v))),
+            (MReg::C1(d), MReg::C1(s)) => windowed(&s.v, || counted(|| d.v.clone_from(&s.v))),
+            (MReg::C2(d), MReg::C2(s)) => windowed(&s.v, || counted(|| d.v.clone_from(&s.v))),
+            (MReg::C3(d), MReg::C3(s)) => windowed(&s.v, || counted(|| d.v.clone_from(&s.v))),
+            (MReg::C4(d), MReg::C4(s)) => windowed(&s.v, || counted(|| d.v.clone_from(&s.v))),
+            (MReg::C8(d), MReg::C8(s)) => windowed(&s.v, || counted(|| d.v.clone_from(&s.v))),
             _ => unreachable!(),
         }
     }
     fn clone_reg(&self) -> MReg {
         match self {
-            MReg::C0(g) => MReg::C0(Guarded::new(counted(|| g.v.clone()))),
-            MReg::C1(g) => MReg::C1(Guarded::new(counted(|| g.v.clone()))),
-            MReg::C2(g) => MReg::C2(Guarded::new(counted(|| g.v.clone()))),
-            MReg::C3(g) => MReg::C3(Guarded::new(counted(|| g.v.clone()))),
-            MReg::C4(g) => MReg::C4(Guarded::new(counted(|| g.v.clone()))),
-            MReg::C8(g) => MReg::C8(Guarded::new(counted(|| g.v.clone()))),
+            MReg::C0(g) => MReg::C0(Guarded::new(windowed(&g.v, || counted(|| g.v.clone())))),
+            MReg::C1(g) => MReg::C1(Guarded::new(windowed(&g.v, || counted(|| g.v.clone())))),
+            MReg::C2(g) => MReg::C2(Guarded::new(windowed(&g.v, || counted(|| g.v.clone())))),
+            MReg::C3(g) => MReg::C3(Guarded::new(windowed(&g.v, || counted(|| g.v.clone())))),
+            MReg::C4(g) => MReg::C4(Guarded::new(windowed(&g.v, || counted(|| g.v.clone())))),
+            MReg::C8(g) => MReg::C8(Guarded::new(windowed(&g.v, || counted(|| g.v.clone())))),
         }
     }
 }
 impl SReg {
     fn clone_from_reg(&mut self, src: &SReg) {
         match (self, src) {
-            (SReg::C0(d), SReg::C0(s)) => counted(|| d.v.clone_from(&s.v)),
-            (SReg::C1(d), SReg::C1(s)) => counted(|| d.v.clone_from(&s.v)),
-            (SReg::C2(d), SReg::C2(s)) => counted(|| d.v.clone_from(&s.v)),
-            (SReg::C3(d), SReg::C3(s)) => counted(|| d.v.clone_from(&s.v)),
-            (SReg::C4(d), SReg::C4(s)) => counted(|| d.v.clone_from(&s.v)),
-            (SReg::C8(d), SReg::C8(s)) => counted(|| d.v.clone_from(&s.v)),
+            (SReg::C0(d), SReg::C0(s)) => windowed(&s.v, || counted(|| d.v.clone_from(&s.v))),
+            (SReg::C1(d), SReg::C1(s)) => windowed(&s.v, || counted(|| d.v.clone_from(&s.v))),
+            (SReg::C2(d), SReg::C2(s)) => windowed(&s.v, || counted(|| d.v.clone_from(&s.v))),
+            (SReg::C3(d), SReg::C3(s)) => windowed(&s.v, || counted(|| d.v.clone_from(&s.v))),
+            (SReg::C4(d), SReg::C4(s)) => windowed(&s.v, || counted(|| d.v.clone_from(&s.v))),
+            (SReg::C8(d), SReg::C8(s)) => windowed(&s.v, || counted(|| d.v.clone_from(&s.v))),
             _ => unreachable!(),
         }
     }
@@ -163,12 +163,12 @@ impl SReg {
     }
     fn clone_reg(&self) -> SReg {
         match self {
-            SReg::C0(g) => SReg::C0(Guarded::new(counted(|| g.v.clone()))),
-            SReg::C1(g) => SReg::C1(Guarded::new(counted(|| g.v.clone()))),
-            SReg::C2(g) => SReg::C2(Guarded::new(counted(|| g.v.clone()))),
-            SReg::C3(g) => SReg::C3(Guarded::new(counted(|| g.v.clone()))),
-            SReg::C4(g) => SReg::C4(Guarded::new(counted(|| g.v.clone()))),
-            SReg::C8(g) => SReg::C8(Guarded::new(counted(|| g.v.clone()))),
+            SReg::C0(g) => SReg::C0(Guarded::new(windowed(&g.v, || counted(|| g.v.clone())))),
+            SReg::C1(g) => SReg::C1(Guarded::new(windowed(&g.v, || counted(|| g.v.clone())))),
+            SReg::C2(g) => SReg::C2(Guarded::new(windowed(&g.v, || counted(|| g.v.clone())))),
+            SReg::C3(g) => SReg::C3(Guarded::new(windowed(&g.v, || counted(|| g.v.clone())))),
+            SReg::C4(g) => SReg::C4(Guarded::new(windowed(&g.v, || counted(|| g.v.clone())))),
+            SReg::C8(g) => SReg::C8(Guarded::new(windowed(&g.v, || counted(|| g.v.clone())))),
         }
     }
 }
@@ -316,10 +316,24 @@ fn parse_tab(n: u64, t: &[u64]) -> Vec<(u64, u64)> {
 }
 
 // a source iterator whose next() is user code
-struct Src<T> { it: std::vec::IntoIter<T> }
+// size_hint is advisory: safe code may report anything, so the hints rotate through
+// absent, under-reporting, exact and over-reporting (the model never consults a hint,
+// and neither may the crate's memory safety or results depend on one)
+struct Src<T> { it: std::vec::IntoIter<T>, mode: u64 }
+thread_local! { static SRC_MODE: std::cell::Cell<u64> = const { std::cell::Cell::new(0) }; }
+impl<T> Src<T> {
+    fn new(items: Vec<T>) -> Src<T> {
+        let mode = SRC_MODE.with(|m| { let v = m.get(); m.set(v + 1); v });
+        Src { it: items.into_iter(), mode }
+    }
+}
 impl<T> Iterator for Src<T> {
     type Item = T;
     fn next(&mut self) -> Option<T> { call_tick(); self.it.next() }
+    fn size_hint(&self) -> (usize, Option<usize>) {
+        let n = self.it.len();
+        match self.mode % 5 { 0 => (0, None), 1 => (0, Some(0)), 2 => (n, Some(n)), 3 => (n / 2, Some(n / 2)), _ => (n + 3, Some(n + 7)) }
+    }
 }
 
 fn opt_val(r: Option<Val>, o: &mut Out) {
@@ -441,7 +455,7 @@ fn map_op<const N: usize>(m: &mut Map<Key, Val, N>, op: &[u64], o: &mut Out) {
                     let a: [(Key, Val); N] = match items.try_into() { Ok(a) => a, Err(_) => panic!("array length") };
                     counted(|| Map::from(a))
                 } else {
-                    let src = Src { it: items.into_iter() };
+                    let src = Src::new(items);
                     counted(|| src.collect())
                 };
                 let old = mem::replace(m, fresh); drop(old); }
@@ -699,7 +713,7 @@ fn set_op<const N: usize>(s: &mut Set<Key, N>, op: &[u64], o: &mut Out) {
                  else { leak_ok(); mem::forget(d); } }
         135 => { let n = op[2] as usize;
                  let items: Vec<Key> = (0..n).map(|i| Key::new(op[3 + 2 * i], op[4 + 2 * i])).collect();
-                 let src = Src { it: items.into_iter() };
+                 let src = Src::new(items);
                  counted(|| s.extend(src)); }
         140 => { let steps = op[2];
                  let mut it = counted(|| s.iter());
@@ -757,7 +771,7 @@ fn set_op<const N: usize>(s: &mut Set<Key, N>, op: &[u64], o: &mut Out) {
                      let a: [Key; N] = match items.try_into() { Ok(a) => a, Err(_) => panic!("array length") };
                      counted(|| Set::from(a))
                  } else {
-                     let src = Src { it: items.into_iter() };
+                     let src = Src::new(items);
                      counted(|| src.collect())
                  };
                  let old = mem::replace(s, fresh); drop(old); }
@@ -1001,6 +1015,7 @@ fn step(w: &mut World, op: &[u64]) -> (Out, bool) {
     if (op[0] == 60 || op[0] == 67) && w.m[op[1] as usize].cap() != w.m[op[2] as usize].cap() { return (vec![9], false); }
     if (op[0] == 160 || op[0] == 167) && w.s[op[1] as usize - 2].cap() != w.s[op[2] as usize - 2].cap() { return (vec![9], false); }
     with_ctx(|c| { c.drops.clear(); c.clones.clear(); c.in_call = true; });
+    CLONE_WIN.with(|w| w.set((0, 0)));
     let mut body = Out::new();
     let res = catch_unwind(AssertUnwindSafe(|| do_op(w, op, &mut body)));
     COUNTING.with(|c| c.set(false));
@@ -1043,6 +1058,7 @@ pub fn run_case(segs: &[Vec<u64>]) -> (Vec<Out>, Vec<String>, String) {
     let cfg = &segs[0];
     CTX.with(|c| *c.borrow_mut() = Ctx::new());
     with_ctx(|c| { c.adv = cfg[0] == 1; c.seed = cfg[1]; c.fk = cfg[2]; c.fa = cfg[3]; });
+    SRC_MODE.with(|m| m.set(cfg[1] + segs.len() as u64));
     let mut w = World { m: [mk_mreg(cfg[4]), mk_mreg(cfg[5])], s: [mk_sreg(cfg[6]), mk_sreg(cfg[7])] };
     let mut obs = Vec::new();
     let mut panics = 0;
